@@ -1,17 +1,18 @@
 (* C16 — Large TEXT, BLOB and JSON values are stored faithfully.  Property theorems only. *)
 From Coq Require Import NArith ZArith List Bool.
+From Dolt Require C15.Proofs.
 From Dolt Require Import Base.Str Gen.C15Consts C15.Model C16.Model C16.Spec C16.Corr C16.Proofs.
 Import ListNotations.
 Local Open Scope N_scope.
 
 Theorem C16_vi_roundtrip :
   forall (n : N) (rest : bytes), n < 2 ^ 64 -> vi_dec (vi_enc n ++ rest) = (n, len (vi_enc n)).
-Proof. exact vi_roundtrip. Qed.
+Proof. exact C15.Proofs.vi_roundtrip. Qed.
 Print Assumptions C16_vi_roundtrip.
 
 Theorem C16_vi_first_byte_nonzero :
   forall n : N, 0 < n -> hd 0 (vi_enc n) <> 0.
-Proof. exact vi_first_byte_nonzero. Qed.
+Proof. exact C15.Proofs.vi_first_byte_nonzero. Qed.
 Print Assumptions C16_vi_first_byte_nonzero.
 
 Theorem C16_ad_roundtrip :
@@ -53,3 +54,51 @@ Theorem C16_compare_adaptive_order_refuted :
     /\ compare_adaptive c_blob_chunk_length (c_blob_chunk_length / c_hash_byte_len) content l r = Eq.
 Proof. exact compare_adaptive_order_refuted. Qed.
 Print Assumptions C16_compare_adaptive_order_refuted.
+
+(* aligned leaf lists: the first differing pair of leaves decides, for every chunk size *)
+Theorem C16_first_diff_chunks :
+  forall (K : nat) (a b : bytes), (0 < K)%nat -> first_diff (chunks K a) (chunks K b) = bytes_compare a b.
+Proof. exact first_diff_chunks. Qed.
+Print Assumptions C16_first_diff_chunks.
+
+(* all contents: the comparison is the byte order of the contents whenever the
+   pair is outside the class of the finding (cmp_safe: two trees of the same
+   height >= 1, or a side that cannot extend past the first leaf of the other).
+   The statement without cmp_safe is refuted above. *)
+Theorem C16_compare_adaptive_correct :
+  forall (K F : N) (content : bytes -> bytes) (cl cr : bytes) (l r : aval),
+    0 < K -> repr_of content cl l -> repr_of content cr r -> cmp_safe K F cl cr l r = true ->
+    compare_adaptive K F content l r = bytes_compare cl cr.
+Proof. exact compare_adaptive_correct. Qed.
+Print Assumptions C16_compare_adaptive_correct.
+
+Theorem C16_compare_adaptive_repr_indep :
+  forall (K F : N) (content : bytes -> bytes) (cl cr : bytes) (l l' r r' : aval),
+    0 < K -> repr_of content cl l -> repr_of content cl l' -> repr_of content cr r -> repr_of content cr r' ->
+    cmp_safe K F cl cr l r = true -> cmp_safe K F cl cr l' r' = true ->
+    compare_adaptive K F content l r = compare_adaptive K F content l' r'.
+Proof. exact compare_adaptive_repr_indep_general. Qed.
+Print Assumptions C16_compare_adaptive_repr_indep.
+
+Theorem C16_compare_adaptive_same_height :
+  forall (K F : N) (content : bytes -> bytes) (cl cr al ar : bytes),
+    0 < K -> content al = cl -> content ar = cr ->
+    top_level K F (len cl) = top_level K F (len cr) -> 0 < top_level K F (len cl) ->
+    compare_adaptive K F content (AOut (len cl) al) (AOut (len cr) ar) = bytes_compare cl cr.
+Proof. exact compare_adaptive_same_height. Qed.
+Print Assumptions C16_compare_adaptive_same_height.
+
+(* the executable statement of the property holds of the model on every
+   well-formed input outside the class of the comparison finding *)
+Theorem C16_oracle_on_model :
+  forall i : input, wf_input i = true -> oracle i (model_obs i) = true.
+Proof. exact oracle_on_model. Qed.
+Print Assumptions C16_oracle_on_model.
+
+(* BlobBuilder.Init's level count always yields exactly one root node, for
+   every non-empty value (also at exact powers chunk * fanout^k) *)
+Theorem C16_blob_forest_single_root :
+  forall (K F : N) (b : bytes),
+    0 < K -> 1 < F -> b <> [] -> len b < 2 ^ 64 -> length (blob_forest K F b) = 1%nat.
+Proof. exact blob_forest_single_root. Qed.
+Print Assumptions C16_blob_forest_single_root.
